@@ -7,5 +7,5 @@ if [ -f tools/extract_facts.py ]; then
 fi
 cd coq
 coq_makefile -f _CoqProject -o Makefile >/dev/null
-timeout 3000 make -j"$(nproc)" 2>&1 | tail -5
+timeout 3000 make -k -j"$(nproc)" 2>&1 | tail -5
 echo "setup done"
